@@ -15,6 +15,9 @@ from mdsa.astutil import call_attr, call_recv, chain, kwarg, local_calls, norm, 
 from mdsa.cfg import walk_local
 from mdsa.loader import AnalysisError, NoFold
 
+from mdsa import match as MM
+
+from .sem import F
 from .common import Ctx, local_defs, node_of
 from .wrapmodel import (
     NODE_CLASSES,
@@ -277,10 +280,10 @@ def r1_navigation(P, rep, ctx):
                 rep.ok("C15.R1", fi.qual, what + " (stored local parent)", loc)
             elif kind == "rawattrs":
                 # only when neither read_only nor skel_only is set
-                g = g or guard_aware_cfg(fi)
+                g = g or ctx.cfg(fi)
                 n = node_of(g, val)
-                tests = [t.idx for t in g.nodes if t.kind == "test" and {"read_only", "skel_only"} <= acl_flag_of_test(t.exprs[0]) and isinstance(t.exprs[0], ast.BoolOp) and isinstance(t.exprs[0].op, ast.Or)]
-                ok = n is not None and bool(tests) and all(n not in g.reach([b for b, lab in g.succ[t] if lab == "T"]) for t in tests) and g.every_path_passes(tests, n)
+                ff = F(ctx, fi)
+                ok = n is not None and not reachable_when_flag(ff, "read_only", [n]) and not reachable_when_flag(ff, "skel_only", [n])
                 rep.check(ok, "C15.R1", fi.qual, "raw attribute manager is handed out only when neither read_only nor skel_only is set", loc,
                           construct=f"{how} {norm(val)}", message="raw attribute manager returned on a path where read_only or skel_only may be set")
             elif kind == "passthrough":
@@ -458,10 +461,34 @@ def r2_monotone(P, rep, ctx):
 
 
 # ------------------------------------------------------------------------------------------- R3
-def _guard_dominates(rep, rule, fi, g, flag, effects, what):
+ACL_RECV = ("self", "obj", "self._node")
+
+
+def flag_patterns(flag: str):
+    return [f"{r}.acl[NodeAcl.{flag}]" for r in ACL_RECV] + [f"self._self_acl[NodeAcl.{flag}]", f"self._self_flags[NodeAcl.{flag}]", f"self._self_acl.get(NodeAcl.{flag})"]
+
+
+def reachable_when_flag(f: "F", flag: str, targets, extra=()):
+    """nodes of `targets` reachable from the entry on a path on which the node's `flag` is set (and the extra
+    literals hold): flag tests are taken on their true side, and a call of _guard_acl(NodeAcl.<flag>) /
+    _raise_illegal_op ends the path (it raises, the flag being set)."""
+    g = f.g
+    blocked = f.neg(f.tests(*flag_patterns(flag)))
+    for alts in extra:
+        blocked += f.neg(f.tests(*alts))
+    stops = [n.idx for n in g.nodes if any(guard_acl_flag(c) == flag or call_attr(c) == "_raise_illegal_op" for c in g.calls(n.idx))]
+    r = g.reach_consistent([g.entry], avoid=stops, labels_block=blocked)
+    return sorted(set(targets) & r)
+
+
+def _guard_dominates(rep, rule, fi, g, flag, effects, what, ctx=None):
+    f = F(ctx, fi) if ctx is not None else None
     guards = [n.idx for n in g.nodes if any(guard_acl_flag(c) == flag for c in g.calls(n.idx))]
     for e in effects:
         ok = g.every_path_passes(guards, e)
+        if not ok and f is not None:
+            # the guard may be conditional on the flag itself (`if self.acl[F]: self._guard_acl(F)`)
+            ok = not reachable_when_flag(f, flag, [e])
         rep.check(ok, rule, fi.qual, f"_guard_acl({flag}) dominates {what}: {g.nodes[e].text()[:70]}", fi.loc(g.nodes[e].stmt),
                   construct=f"{flag} guard before {g.nodes[e].text()[:90]}",
                   message=f"{what} reachable without _guard_acl(NodeAcl.{flag}): {g.nodes[e].text()[:90]}", path=g.path_text(g.find_path(e, avoid=guards)))
@@ -498,8 +525,10 @@ def r3_read_only(P, rep, ctx):
     # the guard itself
     fi = P.func(f"{W}.MetadorNode._guard_acl")
     g = ctx.cfg(fi)
-    tests = [t for t in g.nodes if t.kind == "test" and norm(t.exprs[0]) in ("self.acl[flag]", "self._self_flags[flag]")]
-    ok = bool(tests) and all(g.exit not in g.reach([b for b, lab in g.succ[t.idx] if lab == "T"]) and all(b != g.exit for b, lab in g.succ[t.idx] if lab == "T") for t in tests)
+    f = F(ctx, fi)
+    fl = fi.params[1]
+    isset = f.tests(f"self.acl[{fl}]", f"self._self_flags[{fl}]", f"self.acl.get({fl})", f"self._self_flags.get({fl}, False)")
+    ok = f.refuses(isset) and f.hit_before(g.exit, nodes=f.test_nodes(isset))
     rep.check(ok, "C15.R3", fi.qual, "_guard_acl raises whenever the flag is set", fi.loc(), construct="_guard_acl body", message="_guard_acl does not raise on every path on which the flag is set")
     # factory body
     fac = P.func(f"{W}._wrap_method")
@@ -510,12 +539,12 @@ def r3_read_only(P, rep, ctx):
     raws = [n.idx for n in g.nodes if any(getattr_raw_call(c) is not None for c in g.calls(n.idx))]
     if not raws:
         raise AnalysisError("no raw call found in _wrap_method.wrapped_method")
-    ro_tests = [t.idx for t in g.nodes if t.kind == "test" and norm(t.exprs[0]) == "not is_read_only_method"]
+    wf = F(ctx, wm)
+    ro_method = wf.tests("is_read_only_method")
     guards = [n.idx for n in g.nodes if any(guard_acl_flag(c) == "read_only" for c in g.calls(n.idx))]
     for r in raws:
-        # on the path where is_read_only_method is False (T edge of `not is_read_only_method`) the guard precedes the raw call;
-        # the F edge (read-only method) may skip it
-        ok = bool(ro_tests) and bool(guards) and all(g.every_path_passes(guards, r, src=t, src_label="T") for t in ro_tests) and g.every_path_passes(ro_tests + guards, r)
+        # the guard precedes the raw call unless the method was declared read-only
+        ok = bool(guards) and wf.hit_before(r, nodes=guards, edges=ro_method)
         rep.check(ok, "C15.R3", wm.qual, "factory: read_only guard precedes the raw call unless the method is declared read-only", wm.loc(g.nodes[r].stmt),
                   construct="read_only guard in _wrap_method", message="_wrap_method: raw call reachable without _guard_acl(read_only) for a non-read-only method")
     # uses of the factory
@@ -536,24 +565,24 @@ def r3_read_only(P, rep, ctx):
         if fi is None:
             rep.fail("C15.R3", grp.qual, f"mutator {m} missing", f"MetadorGroup does not define mutator {m}: it is left to the object proxy / refused", grp.module.relpath)
             continue
-        g = guard_aware_cfg(fi)
+        g = ctx.cfg(fi)
         eff = _raw_effect_nodes(P, g)
         inline = [c for c in local_calls(fi.node) if isinstance(c.func, ast.Call) and factory_call_info(P, None, c.func) and not factory_call_info(P, None, c.func)[1]]
         if not eff and not inline:
             raise AnalysisError(f"C15.R3: no effect found in {fi.qual}")
         if inline:
             rep.ok("C15.R3", fi.qual, f"mutation delegated to the guarded factory method ({norm(inline[0].func)})", fi.loc(inline[0]))
-        _guard_dominates(rep, "C15.R3", fi, g, "read_only", eff, "mutation")
+        _guard_dominates(rep, "C15.R3", fi, g, "read_only", eff, "mutation", ctx)
     ds = P.cls(f"{W}.MetadorDataset")
     fi = ds.methods.get("__setitem__")
     if fi is None:
         rep.fail("C15.R3", ds.qual, "MetadorDataset.__setitem__ missing", "MetadorDataset does not define __setitem__: the object proxy forwards it unguarded", ds.module.relpath)
     else:
-        g = guard_aware_cfg(fi)
-        _guard_dominates(rep, "C15.R3", fi, g, "read_only", _raw_effect_nodes(P, g), "dataset write")
+        g = ctx.cfg(fi)
+        _guard_dominates(rep, "C15.R3", fi, g, "read_only", _raw_effect_nodes(P, g), "dataset write", ctx)
     # dataset pass-through: forbidden names guarded
     fi = P.func(f"{W}.MetadorDataset.__getattr__")
-    g = guard_aware_cfg(fi)
+    g = ctx.cfg(fi)
     passn = [n.idx for n in g.nodes if any(getattr_raw_call(c) is not None for c in g.calls(n.idx))]
     forb = ds.attrs.get("_self_RO_FORBIDDEN")
     try:
@@ -562,8 +591,9 @@ def r3_read_only(P, rep, ctx):
         forb_set = set()
     rep.check({"resize", "make_scale", "write_direct", "flush"} <= forb_set, "C15.R3", ds.qual, "_self_RO_FORBIDDEN covers the mutating dataset methods", ds.module.relpath,
               construct="_self_RO_FORBIDDEN", message=f"_self_RO_FORBIDDEN lost a mutating method: {sorted(forb_set)}")
-    tests = [t.idx for t in g.nodes if t.kind == "test" and "read_only" in acl_flag_of_test(t.exprs[0]) and "key in self._self_RO_FORBIDDEN" in norm(t.exprs[0])]
-    ok = bool(tests) and all(not (set(passn) & g.reach([b for b, lab in g.succ[t] if lab == "T"])) for t in tests) and all(g.every_path_passes(tests, p) for p in passn)
+    df = F(ctx, fi)
+    kp = fi.params[1]
+    ok = bool(passn) and not reachable_when_flag(df, "read_only", passn, extra=[[f"{kp} in self._self_RO_FORBIDDEN"]]) and (bool(df.tests(f"{kp} in self._self_RO_FORBIDDEN")) or not reachable_when_flag(df, "read_only", passn))
     rep.check(ok, "C15.R3", fi.qual, "forbidden dataset methods are refused for read_only nodes before the pass-through", fi.loc(), construct="RO_FORBIDDEN test in __getattr__",
               message="MetadorDataset.__getattr__ can pass a forbidden mutating method through for a read_only node")
     # attribute manager
@@ -573,10 +603,10 @@ def r3_read_only(P, rep, ctx):
         if fi is None:
             rep.fail("C15.R3", wam.qual, f"{m} missing", f"WrappedAttributeManager does not define {m}: the object proxy forwards it unguarded", wam.module.relpath)
             continue
-        g = guard_aware_cfg(fi)
+        g = ctx.cfg(fi)
         eff = [n.idx for n in g.nodes if any(isinstance(c.func, ast.Attribute) and is_raw_expr(c.func.value) for c in g.calls(n.idx))]
-        tests = [t.idx for t in g.nodes if t.kind == "test" and acl_flag_of_test(t.exprs[0]) == {"read_only"}]
-        ok = bool(eff) and bool(tests) and all(g.every_path_passes(tests, e) and all(e not in g.reach([b for b, lab in g.succ[t] if lab == "T"]) for t in tests) for e in eff)
+        af = F(ctx, fi)
+        ok = bool(eff) and not reachable_when_flag(af, "read_only", eff)
         rep.check(ok, "C15.R3", fi.qual, "attribute mutation refused when read_only", fi.loc(), construct=f"read_only test in {m}", message=f"WrappedAttributeManager.{m} reaches the raw attribute manager although read_only is set")
     wl = wam.attrs.get("_self_acl_whitelist")
     ok = False
@@ -591,20 +621,24 @@ def r3_read_only(P, rep, ctx):
     rep.check(ok, "C15.R3", wam.qual, "attribute whitelists contain only non-mutating (read_only) / key-only (skel_only) methods", wam.module.relpath, construct="_self_acl_whitelist",
               message="WrappedAttributeManager whitelist admits a mutating or value-reading method")
     fi = P.func(f"{W}.WrappedAttributeManager.__getattr__")
-    g = guard_aware_cfg(fi)
+    g = ctx.cfg(fi)
     passn = [n.idx for n in g.nodes if any(getattr_raw_call(c) is not None for c in g.calls(n.idx))]
-    tests = [t.idx for t in g.nodes if t.kind == "test" and "key not in self._self_allowed" in norm(t.exprs[0])]
-    ok = bool(passn) and bool(tests) and all(g.every_path_passes(tests, p) and all(p not in g.reach([b for b, lab in g.succ[t] if lab == "T"]) for t in tests) for p in passn)
+    wf2 = F(ctx, fi)
+    kp = fi.params[1]
+    r_ = wf2.refuses_when([["self._self_allowed"], [f"{kp} not in self._self_allowed"], [f"hasattr(self.__wrapped__, {kp})"]], targets=passn)
+    if r_ is None:
+        r_ = wf2.refuses_when([["self._self_allowed"], [f"{kp} not in self._self_allowed"]], targets=passn)
+    ok = bool(passn) and bool(r_)
     rep.check(ok, "C15.R3", fi.qual, "non-whitelisted attribute methods are refused before the pass-through", fi.loc(), construct="whitelist test in __getattr__",
               message="WrappedAttributeManager.__getattr__ passes a non-whitelisted method through")
     # metadata interface
     for m in ("__setitem__", "__delitem__"):
         fi = P.func(f"{I}.MetadorMeta.{m}")
-        g = guard_aware_cfg(fi)
+        g = ctx.cfg(fi)
         eff = _raw_effect_nodes(P, g)
         if not eff:
             raise AnalysisError(f"C15.R3: no effect in {fi.qual}")
-        _guard_dominates(rep, "C15.R3", fi, g, "read_only", eff, "metadata mutation")
+        _guard_dominates(rep, "C15.R3", fi, g, "read_only", eff, "metadata mutation", ctx)
 
 
 # ------------------------------------------------------------------------------------------- R4
@@ -614,16 +648,17 @@ def r4_skel_only(P, rep, ctx):
     if fi is None:
         rep.fail("C15.R4", ds.qual, "MetadorDataset.__getitem__ missing", "MetadorDataset does not define __getitem__: the object proxy forwards it unguarded", ds.module.relpath)
     else:
-        g = guard_aware_cfg(fi)
+        g = ctx.cfg(fi)
         eff = [n.idx for n in g.nodes if any(isinstance(c.func, ast.Attribute) and is_raw_expr(c.func.value) for c in g.calls(n.idx)) or (n.kind == "stmt" and any(isinstance(x, ast.Subscript) and is_raw_expr(x.value) for x in walk_local(n.stmt)))]
         if not eff:
             raise AnalysisError("C15.R4: no raw read in MetadorDataset.__getitem__")
-        _guard_dominates(rep, "C15.R4", fi, g, "skel_only", eff, "dataset read")
+        _guard_dominates(rep, "C15.R4", fi, g, "skel_only", eff, "dataset read", ctx)
     fi = P.func(f"{W}.MetadorDataset.__getattr__")
-    g = guard_aware_cfg(fi)
+    g = ctx.cfg(fi)
     passn = [n.idx for n in g.nodes if any(getattr_raw_call(c) is not None for c in g.calls(n.idx))]
-    tests = [t.idx for t in g.nodes if t.kind == "test" and "skel_only" in acl_flag_of_test(t.exprs[0]) and "key == 'get'" in norm(t.exprs[0])]
-    ok = bool(tests) and all(not (set(passn) & g.reach([b for b, lab in g.succ[t] if lab == "T"])) for t in tests) and all(g.every_path_passes(tests, p) for p in passn)
+    df = F(ctx, fi)
+    kp = fi.params[1]
+    ok = bool(passn) and not reachable_when_flag(df, "skel_only", passn, extra=[[f"{kp} == 'get'"]]) and (bool(df.tests(f"{kp} == 'get'")) or not reachable_when_flag(df, "skel_only", passn))
     rep.check(ok, "C15.R4", fi.qual, "dataset .get is refused for skel_only nodes", fi.loc(), construct="skel_only test in MetadorDataset.__getattr__",
               message="MetadorDataset.__getattr__ passes `get` through for a skel_only node")
     wam = P.cls(f"{W}.WrappedAttributeManager")
@@ -631,58 +666,66 @@ def r4_skel_only(P, rep, ctx):
     if fi is None:
         rep.fail("C15.R4", wam.qual, "__getitem__ missing", "WrappedAttributeManager does not define __getitem__: attribute values readable on skel_only nodes", wam.module.relpath)
     else:
-        g = guard_aware_cfg(fi)
+        g = ctx.cfg(fi)
         eff = [n.idx for n in g.nodes if any(isinstance(c.func, ast.Attribute) and is_raw_expr(c.func.value) for c in g.calls(n.idx))]
-        tests = [t.idx for t in g.nodes if t.kind == "test" and acl_flag_of_test(t.exprs[0]) == {"skel_only"}]
-        ok = bool(eff) and bool(tests) and all(g.every_path_passes(tests, e) and all(e not in g.reach([b for b, lab in g.succ[t] if lab == "T"]) for t in tests) for e in eff)
+        af = F(ctx, fi)
+        ok = bool(eff) and not reachable_when_flag(af, "skel_only", eff)
         rep.check(ok, "C15.R4", fi.qual, "attribute values refused when skel_only", fi.loc(), construct="skel_only test in __getitem__", message="WrappedAttributeManager.__getitem__ returns attribute values although skel_only is set")
     for m in ("get", "values", "items"):
         fi = P.func(f"{I}.MetadorMeta.{m}")
-        g = guard_aware_cfg(fi)
+        g = ctx.cfg(fi)
         eff = [n.idx for n in g.nodes if n.kind != "entry" and any(isinstance(x, ast.Attribute) and x.attr == "_objs" for e in n.exprs if e is not None for x in walk_local(e))
                or any(call_attr(c) in ("_get_raw", "_parse_obj", "query") for c in g.calls(n.idx))]
         if not eff:
             raise AnalysisError(f"C15.R4: no metadata access found in {fi.qual}")
-        _guard_dominates(rep, "C15.R4", fi, g, "skel_only", eff, "metadata read")
+        _guard_dominates(rep, "C15.R4", fi, g, "skel_only", eff, "metadata read", ctx)
     # attrs property wraps whenever read_only or skel_only: covered by R1 (rawattrs)
     # __getitem__ / query("") go through get / values
     fi = P.func(f"{I}.MetadorMeta.__getitem__")
     rep.check(any(call_attr(c) == "get" and norm(c.func.value) == "self" for c in local_calls(fi.node)) and not any(isinstance(x, ast.Attribute) and x.attr in ("_objs",) for x in walk_local(fi.node)),
               "C15.R4", fi.qual, "meta[...] reads through the guarded get()", fi.loc(), construct="MetadorMeta.__getitem__", message="MetadorMeta.__getitem__ reads stored objects without going through the guarded get()")
     fi = P.func(f"{I}.MetadorMeta.query")
-    g = guard_aware_cfg(fi)
+    g = ctx.cfg(fi)
     ys = [n.idx for n in g.nodes if n.kind in ("stmt", "for") and any(isinstance(x, ast.Attribute) and x.attr == "_objs" for e in n.exprs if e is not None for x in walk_local(e))]
     rep.check(not ys, "C15.R4", fi.qual, "query lists objects through the guarded values()/keys()/_get_raw only", fi.loc(), construct="_objs access in query",
               message="MetadorMeta.query reads self._objs directly (bypasses the skel_only guard of values())")
 
 
 # ------------------------------------------------------------------------------------------- R5
+def _reach_local(pf, targets):
+    return reachable_when_flag(pf, "local_only", targets)
+
+
 def r5_local_only(P, rep, ctx):
     fi = P.func(f"{W}.MetadorNode.parent")
-    g = guard_aware_cfg(fi)
-    tests = [t.idx for t in g.nodes if t.kind == "test" and acl_flag_of_test(t.exprs[0]) == {"local_only"} and not norm(t.exprs[0]).startswith("not ")]
+    g = ctx.cfg(fi)
     upward = [n.idx for n in g.nodes if n.kind in ("stmt", "test") and any(is_raw_expr(x) and isinstance(x, ast.Attribute) and x.attr in ("parent", "file") for e in n.exprs if e is not None for x in walk_local(e))]
     if not upward:
         raise AnalysisError("C15.R5: raw parent access not found in MetadorNode.parent")
-    ok = bool(tests) and all(u not in g.reach([b for b, lab in g.succ[t] if lab == "T"]) for t in tests for u in upward) and all(g.every_path_passes(tests, u) for u in upward)
+    pf = F(ctx, fi)
+    # with local_only set: the stored local parent (if any) is returned, otherwise the guard raises; the raw parent is never reached
+    ok = not _reach_local(pf, upward)
     rep.check(ok, "C15.R5", fi.qual, "local_only: parent yields the stored local parent or raises, never the raw parent", fi.loc(), construct="local_only branch of parent",
               message="MetadorNode.parent can reach the raw parent although local_only is set", path=g.path_text(g.find_path(upward[0])))
     fi = P.func(f"{W}.MetadorNode.file")
-    g = guard_aware_cfg(fi)
-    tests = [t.idx for t in g.nodes if t.kind == "test" and acl_flag_of_test(t.exprs[0]) == {"local_only"} and not norm(t.exprs[0]).startswith("not ")]
-    ok = bool(tests) and all(g.exit not in g.reach([b for b, lab in g.succ[t] if lab == "T"]) for t in tests) and g.every_path_passes(tests, g.exit)
+    g = ctx.cfg(fi)
+    ff = F(ctx, fi)
+    ok = not reachable_when_flag(ff, "local_only", [g.exit])
     rep.check(ok, "C15.R5", fi.qual, "local_only: file raises", fi.loc(), construct="local_only branch of file", message="MetadorNode.file returns normally although local_only is set")
     fi = P.func(f"{W}.MetadorNode._guard_path")
-    g = guard_aware_cfg(fi)
-    tests = [t for t in g.nodes if t.kind == "test" and "local_only" in acl_flag_of_test(t.exprs[0]) and "path[0] == '/'" in norm(t.exprs[0])]
-    ok = bool(tests) and all(g.exit not in g.reach([b for b, lab in g.succ[t.idx] if lab == "T"]) for t in tests) and g.every_path_passes([t.idx for t in tests], g.exit)
+    g = ctx.cfg(fi)
+    gp = F(ctx, fi)
+    pp = fi.params[1]
+    absolute = gp.tests(f"{pp}[0] == '/'", f"{pp}.startswith('/')")
+    ok = bool(absolute) and not reachable_when_flag(gp, "local_only", [g.exit], extra=[[f"{pp}[0] == '/'", f"{pp}.startswith('/')"]])
     rep.check(ok, "C15.R5", fi.qual, "local_only: absolute paths are rejected by _guard_path", fi.loc(), construct="local_only test of _guard_path",
               message="_guard_path accepts absolute paths on a local_only node")
     fi = P.func(f"{W}.MetadorNode.restrict")
-    g = guard_aware_cfg(fi)
-    tests = [t.idx for t in g.nodes if t.kind == "test" and norm(t.exprs[0]) == "added_flags[NodeAcl.local_only]"]
-    clears = [n.idx for n in g.nodes if n.kind == "stmt" and norm(n.stmt) == "self._self_local_parent = None"]
-    ok = bool(tests) and bool(clears) and all(g.every_path_passes(clears, g.exit, src=t, src_label="T") for t in tests)
+    g = ctx.cfg(fi)
+    rf = F(ctx, fi)
+    adds_local = rf.tests("self._parse_access_flags(kwargs)[NodeAcl.local_only]", "__a[NodeAcl.local_only]", "self._parse_access_flags(kwargs).get(NodeAcl.local_only)")
+    clears = [i for i, v, b in rf.stores("self._self_local_parent") if norm(v) == "None"]
+    ok = bool(adds_local) and bool(clears) and all(rf.hit_before(g.exit, nodes=clears, src_edge=e) for e in adds_local)
     rep.check(ok, "C15.R5", fi.qual, "restrict(local_only=True) clears the stored local parent", fi.loc(), construct="local parent clearing in restrict",
               message="restrict(local_only=True) keeps the stored local parent: the node can still go up")
     # refusal cannot fall through a pass-through __getattr__
@@ -693,21 +736,24 @@ def r5_local_only(P, rep, ctx):
         ga = c.methods.get("__getattr__")
         if ga is None:
             continue
-        g = guard_aware_cfg(ga)
+        g = ctx.cfg(ga)
         passn = [n.idx for n in g.nodes if any(getattr_raw_call(cl) is not None for cl in g.calls(n.idx))]
         if not passn:
             rep.ok("C15.R5", ga.qual, "__getattr__ has no pass-through to the raw object", ga.loc())
             continue
         if cq.endswith("MetadorContainer"):
-            tests = [t.idx for t in g.nodes if t.kind == "test" and norm(t.exprs[0]) == "key in self._self_SUPPORTED"]
-            ok = bool(tests) and all(g.every_path_passes(tests, p) and p not in g.reach([b for b, lab in g.succ[t] if lab == "F"]) for t in tests for p in passn)
+            cf = F(ctx, ga)
+            sup_t = cf.tests(f"{ga.params[1]} in self._self_SUPPORTED")
+            ok = bool(sup_t) and cf.all_hit_before(passn, edges=sup_t)
             props = {"parent", "file", "attrs", "name", "meta", "metador"}
             ok = ok and not (_supported(P) & props)
             rep.check(ok, "C15.R5", ga.qual, "container pass-through only for names in _self_SUPPORTED (none of which is a guarded property)", ga.loc(), construct="SUPPORTED test in MetadorContainer.__getattr__",
                       message="MetadorContainer.__getattr__ can pass a guarded property name through to the raw object")
             continue
-        tests = [t.idx for t in g.nodes if t.kind == "test" and norm(t.exprs[0]) in ("hasattr(type(self), key)", "key in dir(type(self))", "hasattr(self.__class__, key)")]
-        ok = (not is_attr_err) or (bool(tests) and all(g.every_path_passes(tests, p) and all(p not in g.reach([b for b, lab in g.succ[t] if lab == "T"]) for t in tests) for p in passn))
+        cf = F(ctx, ga)
+        kp = ga.params[1]
+        own = cf.tests(f"hasattr(type(self), {kp})", f"{kp} in dir(type(self))", f"hasattr(self.__class__, {kp})")
+        ok = (not is_attr_err) or (bool(own) and cf.all_hit_before(passn, edges=cf.neg(own)))
         rep.check(ok, "C15.R5", ga.qual, "a property's refusal (AttributeError subclass) cannot fall through __getattr__ to the raw object", ga.loc(),
                   construct=f"{cq.rsplit('.', 1)[-1]}.__getattr__ fall-through",
                   message="parent/file refuse with UnsupportedOperationError (an AttributeError), Python then calls __getattr__, which passes the name through to the raw object: local_only dataset yields raw parent/file")
